@@ -78,6 +78,29 @@ fn c20_boundary_instants_bounded() {
     }
 }
 
+// The month walk: first and last day of every month of a common year (2023) and a leap year (2024), midnight and the
+// last nanosecond of the day. Added after seeded change C20-5 (a closed-form month computation that is off by one on
+// three month ends) rewrote the loop the Verus proof annotates: the proof is then lost (UNDECIDED), and the cycle
+// boundaries above do not touch a 31st.
+// BOUND: 48 concrete days x 2 instants (not symbolic)
+#[kani::proof]
+#[kani::unwind(26)]
+fn c20_first_and_last_day_of_every_month_bounded() {
+    const DAY: i64 = 86_400;
+    let mut yi = 0;
+    while yi < 2 {
+        let y: i64 = if yi == 0 { 2023 } else { 2024 };
+        let mut m: i64 = 1;
+        while m <= 12 {
+            let first = k_unix_day(y, m, 1) * DAY; let last = k_unix_day(y, m, k_dim(y, m)) * DAY;
+            assert!(ok_at(first, 0) && ok_at(first + DAY - 1, 999_999_999), "C20.month_walk.first_day_of_each_month_is_that_day");
+            assert!(ok_at(last, 0) && ok_at(last + DAY - 1, 999_999_999), "C20.month_walk.last_day_of_each_month_is_that_day");
+            m += 1;
+        }
+        yi += 1;
+    }
+}
+
 // Display layout at concrete dates (a SYMBOLIC Display did not finish: core::fmt padding over 64-bit values): the year
 // sign / width boundaries (-1, 0, 1, 9998, 9999, 10000), single-digit month / day / time fields, truncated micros
 struct Cmp { want: &'static [u8], pos: usize, ok: bool }
